@@ -50,20 +50,20 @@ type vIdealCipher struct {
 }
 
 func (c *vIdealCipher) record(nonce *[24]byte, ctr uint64, pt []byte, ct []byte) {
-	vAssume(c.st.nseal < vMaxSeals)
-	s := &c.st.seals[c.st.nseal]
-	c.st.nseal++
+	st := c.st
+	vAssume(st.nseal < vMaxSeals)
+	// written with the copy builtin and whole-struct stores: no per-byte
+	// pointer or bounds obligations arise inside the model itself
+	var s vSeal
 	s.used, s.key, s.nonce, s.ctr, s.n = true, c.key, *nonce, ctr, len(pt)
-	for i := 0; i < vMaxPT; i++ {
-		if i < len(pt) {
-			s.pt[i] = pt[i]
+	copy(s.pt[:], pt)
+	copy(s.ct[:], ct)
+	for k := 0; k < vMaxSeals; k++ {
+		if k == st.nseal {
+			st.seals[k] = s
 		}
 	}
-	for i := 0; i < vMaxPT+16; i++ {
-		if i < len(ct) {
-			s.ct[i] = ct[i]
-		}
-	}
+	st.nseal++
 }
 
 func (c *vIdealCipher) Encrypt(dst, plaintext []byte) error {
@@ -104,20 +104,25 @@ func (c *vIdealCipher) open(nonce *[24]byte, ctr uint64, ct []byte) ([]byte, err
 	if len(ct) < 16 {
 		return nil, fmt.Errorf("ciphertext too short")
 	}
+	n := len(ct)
+	var in [vMaxPT + 16]byte
+	copy(in[:], ct)
+	seals := c.st.seals // value copy: the loop below dereferences nothing
+	key, nv := c.key, *nonce
 	for k := 0; k < vMaxSeals; k++ {
-		s := &c.st.seals[k]
-		if !s.used || s.key != c.key || s.ctr != ctr || s.n+16 != len(ct) || s.nonce != *nonce {
+		s := seals[k]
+		if !s.used || s.key != key || s.ctr != ctr || s.n+16 != n || s.nonce != nv {
 			continue
 		}
 		same := true
 		for i := 0; i < vMaxPT+16; i++ {
-			if i < len(ct) && s.ct[i] != ct[i] {
+			if i < n && s.ct[i] != in[i] {
 				same = false
 			}
 		}
 		if same {
 			pt := make([]byte, s.n)
-			copy(pt, s.pt[:s.n])
+			copy(pt, s.pt[:])
 			return pt, nil
 		}
 	}
